@@ -7,7 +7,7 @@ import itertools
 from sa.canon import canon
 from sa.peval import peval
 from sa.report import Ctx
-from sa.sym import FALSE, NONE, NOT, Summary, bind_args, conjuncts, show, subst, walk
+from sa.sym import callkw, FALSE, NONE, NOT, Summary, bind_args, conjuncts, show, subst, walk
 
 DIMS = "soundevent.arrays.dimensions"
 AOPS = "soundevent.arrays.operations"
@@ -44,7 +44,7 @@ class C16:
             ctx.undec("R16.1", site, f"{len(ar)} np.arange calls")
             return
         a = ar[0].term
-        kw = dict(a[3])
+        kw = callkw(a)
         pos = list(a[2])
         a_start, a_stop, a_step = kw.get("start", pos[0] if pos else None), kw.get("stop", pos[1] if len(pos) > 1 else None), kw.get("step", pos[2] if len(pos) > 2 else None)
         for case, env, want_step in (("step given", {("cmp", "is", step, NONE): False, ("cmp", "isnot", step, NONE): True}, step),
@@ -73,7 +73,7 @@ class C16:
         if len(var) != 1:
             ctx.undec("R16.1", site, "returned xr.Variable(...) not found")
             return
-        vk = dict(var[0][3])
+        vk = callkw(var[0])
         attrs = vk.get("attrs")
         stepkey = ("attr", ("attr", ("global", "soundevent.arrays.attributes:DimAttrs", "class"), "step"), "value")
         rec = None
